@@ -1,6 +1,7 @@
 package props
 
 import (
+	"bytes"
 	"fmt"
 	"testing"
 
@@ -461,6 +462,32 @@ var c11Advertised = probe.Define("C11", "advertised", func(t *rapid.T) c11AdvIn 
 	}
 	if err := c11Hold("NewChildSAKeyByProposal("+eName+")", 12, ref.Encrs[s.Encr].KeyLen, func() (uint16, int) { return got.EncrKInfo.TransformID(), got.EncrKInfo.GetKeyLength() }); err != nil {
 		return probe.Fail("%v", err)
+	}
+	// the Child SA is keyed (used) and asked for its proposal again: still the algorithms that were negotiated, nothing that
+	// the IKE SA it was keyed from happens to hold
+	ikeSA := newInfoSA(bridge.SuiteSel{Encr: (s.Encr + 1) % 3, Integ: (s.Integ + 1) % 3, Prf: s.Prf, DH: 1 - s.DH})
+	ikeSA.SK_d = bytes.Repeat([]byte{0x5d}, ref.Prfs[s.Prf].KeyLen)
+	ikeSA.Prf_d = ikeSA.PrfInfo.Init(ikeSA.SK_d)
+	if err := probe.Try(func() error { return got.GenerateKeyForChildSA(ikeSA, []byte("Ni|Nr")) }); err != nil {
+		return probe.Fail("GenerateKeyForChildSA on the negotiated Child SA: %v", err)
+	}
+	var prop2 *message.Proposal
+	if err := probe.Try(func() error { var e error; prop2, e = got.ToProposal(); return e }); err != nil {
+		return probe.Fail("ToProposal of the keyed Child SA: %v", err)
+	}
+	ids := func(p *message.Proposal) string {
+		out := ""
+		for _, c := range []message.TransformContainer{p.EncryptionAlgorithm, p.PseudorandomFunction, p.IntegrityAlgorithm, p.DiffieHellmanGroup, p.ExtendedSequenceNumbers} {
+			out += "["
+			for _, tr := range c {
+				out += fmt.Sprintf("%d/%d/%v/%d ", tr.TransformType, tr.TransformID, tr.AttributePresent, tr.AttributeValue)
+			}
+			out += "]"
+		}
+		return out
+	}
+	if ids(prop2) != ids(prop) {
+		return probe.Fail("after its keys were derived the Child SA offers %s, negotiated was %s", ids(prop2), ids(prop))
 	}
 	return probe.OK(true, "child-proposal")
 })
